@@ -533,8 +533,11 @@ fn main() {
                 } else {
                     None
                 };
-                let p = vr::blend_probe(&image, &nf, new_grid, output, base).ok()?;
-                Some(format!("{} | {}", show(p.region), cells(&p.cells)))
+                // an Err (e.g. "blending source does not cover the image region") is an answer, not a bad op
+                match vr::blend_probe(&image, &nf, new_grid, output, base) {
+                    Ok(p) => Some(format!("{} | {}", show(p.region), cells(&p.cells))),
+                    Err(_) => Some("err".to_string()),
+                }
             }),
             ("patch", 14) => guarded(|| {
                 let image = image_header(1, 1, 1, &[]);
